@@ -627,6 +627,61 @@ def gprod_shape_oracle(rng, n):
     return fails, evals
 
 
+def scalar_channels_oracle(rng, n):
+    """"scalar noise with several channels" when the SDE exposes its diffusion ONLY through g_prod / f_and_g_prod (so that no diffusion
+    matrix is there to look at) and the user supplies a Brownian motion with several channels: must be refused with ValueError before
+    anything is integrated, by sdeint and by sdeint_adjoint."""
+    import torchsde
+    dt64 = torch.float64
+    fails, evals = [], 0
+    for _ in range(n):
+        b, d, m = rng.choice([1, 2, 4]), rng.choice([1, 2, 3]), rng.choice([2, 3])
+        sde_type = rng.choice(['ito', 'stratonovich'])
+        which = rng.choice(['g_prod', 'f_and_g_prod'])
+        method = rng.choice(['euler', None] if sde_type == 'ito' else ['midpoint', 'heun', 'euler_heun', None])
+        adjoint = rng.random() < 0.5
+
+        class S(nn.Module):
+            noise_type = 'scalar'
+
+            def __init__(self):
+                super().__init__()
+                self.sde_type = sde_type
+                self.p = nn.Parameter(torch.tensor(1.0, dtype=dt64))
+        if which == 'g_prod':
+            S.f = lambda self, t, y: -self.p * y
+            S.g_prod = lambda self, t, y, v: 0.3 * self.p * y * v.sum(-1, keepdim=True)
+        else:
+            S.f_and_g_prod = lambda self, t, y, v: (-self.p * y, 0.3 * self.p * y * v.sum(-1, keepdim=True))
+        sde = S()
+        y0 = torch.full((b, d), 0.1, dtype=dt64)
+        bm = torchsde.BrownianInterval(t0=T0, t1=T1, size=(b, m), dtype=dt64, entropy=5,
+                                       levy_area_approximation='space-time' if method is None and sde_type == 'ito' else 'none')
+        Probe.install()
+        Probe.reset()
+        cls_name, msg = 'ok', ''
+        try:
+            with warnings.catch_warnings():
+                warnings.simplefilter('ignore')
+                if adjoint:
+                    out = torchsde.sdeint_adjoint(sde, y0, [T0, T1], dt=DT, method=method, bm=bm)
+                    out.sum().backward()
+                else:
+                    torchsde.sdeint(sde, y0, [T0, T1], dt=DT, method=method, bm=bm)
+        except Exception as e:  # noqa
+            cls_name, msg = type(e).__name__, str(e)
+        evals += 1
+        integrated = sum(Probe.started.values()) + sum(Probe.integ.values())
+        if cls_name != 'ValueError' or integrated:
+            fails.append(dict(kind='scalar-noise-with-several-channels-accepted' if cls_name == 'ok' else 'wrong-error-class',
+                              api='sdeint_adjoint' if adjoint else 'sdeint', sde_type=sde_type, method=method, y0_shape=[b, d],
+                              bm_channels=m, diffusion_given_by=which, observed=dict(cls=cls_name, msg=msg[:160], integrated=integrated),
+                              expected='ValueError before any integration'))
+            if len(fails) >= 2:
+                break
+    return fails, evals
+
+
 # ---------------------------------------------------------------------------------------------------------------------
 def run(rep, tier, seed):
     t0 = time.time()
@@ -721,6 +776,10 @@ def run(rep, tier, seed):
     rep.ob('oracle:inconsistent-g_prod-sizes-on-real-code', f"{ev5} calls", not fails5, json.dumps(fails5[:1], default=str)[:900])
     rep._f += fails5
     n_eval += ev5
+    fails6, ev6 = scalar_channels_oracle(rng, 24 if quick else 300)
+    rep.ob('oracle:scalar-noise-several-channels-via-g_prod-only', f"{ev6} calls", not fails6, json.dumps(fails6[:1], default=str)[:900])
+    rep._f += fails6
+    n_eval += ev6
     distinct |= {('M', encode(r)) for r in recs}
 
     exhaustive_adj = not quick
